@@ -75,6 +75,16 @@ check(
     "DESIGN.md 4/C16",
 )
 
+check(
+    "C14",
+    "other",
+    "bounded symbolic verification of position normalisation only: the real Errors.report clamps and the location prefix rendered by Errors.format_messages_default are executed for every (line, column, end_line, end_column) incl. None/-1; obligations: the end position handed on and printed is never before the start, the printed column is 1-based and >= 1. The parser-equivalence half of the property and 'line exists / column within the line' are not applicable to this technique (external compiled front end; whole pipeline over programs) and are not claimed.",
+    "trusted: z3; stub Errors self without scope/watchers; --pretty marker arithmetic only when the K3 section is present in evidence",
+    "symbolic execution of real Python source with z3 (decision-replay)",
+    "DESIGN.md 4/C14",
+    thorough=False,
+)
+
 ALL = [f"C{i:02d}" for i in range(1, 21)]
 
 
